@@ -50,7 +50,7 @@ class HarnessError(Exception):
 
 class Task:
     __slots__ = ('name', 'idx', 'baton', 'blocked_on', 'deadline', 'done', 'timed_out', 'prio', 'thread',
-                 'settling', 'ident', 'nopreempt', 'exc', 'node')
+                 'settling', 'ident', 'nopreempt', 'exc', 'node', 'stalled')
 
     def __init__(self, name, idx):
         self.name = name
@@ -64,6 +64,7 @@ class Task:
         self.prio = 0.0
         self.thread = None
         self.settling = False
+        self.stalled = False  # inside an injected stall (see Scheduler._stall)
         self.ident = None
         self.nopreempt = 0
         self.exc = None
@@ -230,7 +231,7 @@ class Scheduler:
                 self._switch_to(self._choose(cands))
                 return
             settlers = [t for t in self.tasks if t.settling and not t.done]
-            if settlers:
+            if settlers and not any(t.stalled for t in self.tasks if not t.done):
                 t = settlers[0]
                 t.settling = False
                 self._switch_to(t)
@@ -258,8 +259,7 @@ class Scheduler:
         if cur.nopreempt or len(self.tasks) < 2:
             return
         if self.p_stall and self.rng.random() < self.p_stall:
-            self.stalls += 1
-            self.block(object(), self.rng.choice((0.001, 0.004, 0.02, 0.1)), 'stall')
+            self._stall(self.rng.choice((0.001, 0.004, 0.02, 0.1)))
             return
         if self.strategy == 'pct':
             if self.steps in self.pct_points:
@@ -313,6 +313,17 @@ class Scheduler:
 
     def sleep(self, sec):
         self.block(object(), sec, 'sleep', f'{sec:.6g}')
+
+    def _stall(self, dur, label=''):
+        """the current task is descheduled for dur virtual seconds (fault). A stalled task is in the middle of
+        something: settle() does not regard the system as quiescent while one exists."""
+        cur = self.current
+        self.stalls += 1
+        cur.stalled = True
+        try:
+            self.block(object(), dur, 'stall', label)
+        finally:
+            cur.stalled = False
 
     def stall_after(self, lock, p, durations=(0.002, 0.01)):
         """fault placement: a task that has just released <lock> is descheduled with probability p (the window of
@@ -392,8 +403,7 @@ class SimLock:
         if s.stall_locks and self.label in s.stall_locks and not s.current.nopreempt and len(s.tasks) > 1:
             p, durs = s.stall_locks[self.label]
             if s.rng.random() < p:
-                s.stalls += 1
-                s.block(object(), s.rng.choice(durs), 'stall', self.label)
+                s._stall(s.rng.choice(durs), self.label)
         if self._owner is None:
             self._owner = s.current
             return True
@@ -422,8 +432,7 @@ class SimLock:
         if s.stall_after_locks and self.label in s.stall_after_locks and not s.current.nopreempt and len(s.tasks) > 1:
             p, durs = s.stall_after_locks[self.label]
             if s.rng.random() < p:
-                s.stalls += 1
-                s.block(object(), s.rng.choice(durs), 'stall', self.label)
+                s._stall(s.rng.choice(durs), self.label)
 
     def locked(self):
         if self._real is not None and SCHED is None:
@@ -620,6 +629,7 @@ def sim_perf_counter_ns():
 
 # ---------------------------------------------------------------------- line-level pre-emption
 _MON_TOOL = 3
+_LINE_TRACE = open(os.environ['DSIM_LINETRACE'], 'w') if os.environ.get('DSIM_LINETRACE') else None  # debug aid
 _line_allow: tuple[str, ...] = ()
 _line_installed = False
 
@@ -637,6 +647,8 @@ def _on_line(code, line):
     cur = s.current
     if cur is None or cur.nopreempt or cur.ident != _thread.get_ident():
         return None
+    if _LINE_TRACE is not None:
+        _LINE_TRACE.write(f'{s.steps} {fn.rsplit("/", 1)[-1]}:{code.co_name}:{line}\n')
     if s.line_p > 0 and s.rng.random() < s.line_p:
         s.line_yields += 1
         s.yield_point('line', f'{code.co_name}:{line}')
